@@ -93,6 +93,14 @@ def run(pid, tier, ev=None, vd=None, finish=True):
         for k in range(4):
             jobs.append({"prog": "putunder", "program": {1: [("put", "f/x", None, "c2"), ("get", "f"), ("put", "g", None, "c2")], 2: [("put", "f", "c1", "c3"), ("get", "f/x")]},
                          "init": {"f": "c1", "d/k": "c1"}, "policy": "random", "seed": vlib.seed() * 19 + k, "src": "corpus"})
+        # a client writes, as an ordinary path, to the name a conflict-copy of c3 on f would take; a later losing Put(f := c3)
+        # must not replace what was acknowledged there
+        for k, order in enumerate([[1] * 60 + [2] * 60, [2] * 60 + [1] * 60, None, None]):
+            job = {"prog": "confname", "program": {1: [("put", "f#c3", None, "c2"), ("get", "f#c3")], 2: [("put", "f", None, "c3"), ("get", "f#c3")]},
+                   "init": {"f": "c1"}, "policy": "random", "seed": vlib.seed() * 23 + k, "src": "corpus"}
+            if order:
+                job["order"] = order
+            jobs.append(job)
         # the hub's own lock file addressed by a client as an ordinary path (it starts empty = "c0"): whatever the hub
         # answers, the compare-and-swap of the OTHER clients must stay linearizable (schedule as in lock_identity)
         jobs.append({"prog": "lockfile", "program": {1: [("put", ".copia/commit.lock", "c0", "c2")], 2: [("put", "f", "c1", "c2")], 3: [("put", "f", "c1", "c3")]},
